@@ -16,12 +16,12 @@ TECHNIQUE = ('runtime monitoring: parameter forwarding census - the _tx_model_pa
 RULE = ('random declared parameter sets per metamodel (3-4 metamodels with different sets interleaved in one process) x random '
         'keyword arguments (declared, undeclared, mixed; values of several types; the built-in project_root) for '
         'model_from_str, model_from_str(file_name=...) and model_from_file; import closures of 1-5 files through '
-        'PlainNameImportURI / FQNImportURI / RREL +m: / PlainNameGlobalRepo, global repository on/off. Oracle: any undeclared '
+        'PlainNameImportURI / FQNImportURI (each also with search_path=) / RREL +m: / PlainNameGlobalRepo, global repository on/off. Oracle: any undeclared '
         'name -> TextXError and no model; otherwise every model of the load exposes exactly the given mapping. distinct = '
         '(declared set, argument names, API, provider, closure size); non-trivial = an undeclared name is present or the '
         'closure has >= 2 files')
 REQUIRED = {'loads': 400, 'rejected_undeclared': 80, 'accepted': 150, 'imported_models_checked': 200, 'api_from_str': 50,
-            'api_from_str_file_name': 30, 'api_from_file': 100, 'metamodels_alive': 3}
+            'api_from_str_file_name': 30, 'api_from_file': 100, 'metamodels_alive': 3, 'search_path_loads': 50}
 NAMES = ['alpha', 'beta', 'gamma', 'delta', 'project_root', 'debug_level']
 
 
@@ -38,13 +38,17 @@ def one(ctx, i, rep=None):
         # several metamodels with different declared parameter sets, all alive
         mms = []
         for k in range(r.randint(3, 4)):
-            prov = r.choice(['plain', 'fqn', 'rrel', 'globalrepo'])
+            prov = r.choice(['plain', 'fqn', 'rrel', 'globalrepo', 'plain_search_path', 'fqn_search_path'])
             grammar = M.GRAMMAR_RREL.replace('defs.defs*', 'defs') if prov == 'rrel' else M.GRAMMAR
             mm = metamodel_from_str(grammar, global_repository=r.random() < 0.3)
             if prov == 'plain':
                 mm.register_scope_providers({'*.*': sp.PlainNameImportURI()})
             elif prov == 'fqn':
                 mm.register_scope_providers({'*.*': sp.FQNImportURI()})
+            elif prov == 'plain_search_path':
+                mm.register_scope_providers({'*.*': sp.PlainNameImportURI(search_path=[tmp, os.path.join(tmp, 'lib')])})
+            elif prov == 'fqn_search_path':
+                mm.register_scope_providers({'*.*': sp.FQNImportURI(search_path=[os.path.join(tmp, 'sub')])})
             elif prov == 'globalrepo':
                 mm.register_scope_providers({'*.*': sp.PlainNameGlobalRepo(os.path.join(tmp, '**', '*.m'), glob_args={'recursive': True})})
             declared = set(r.sample(NAMES[:4] + ['debug_level'], r.randint(0, 3)))
@@ -67,6 +71,8 @@ def one(ctx, i, rep=None):
             wit = {'declared': sorted(declared), 'kwargs': {k: repr(v) for k, v in kwargs.items()}, 'api': api, 'provider': prov,
                    'main': top, 'files': {f: M.file_text(d, f) for f in d.order}}
             ctx.count('api_' + api)
+            if prov.endswith('search_path'):
+                ctx.count('search_path_loads')
             clo = M.closure(d, top) if prov != 'globalrepo' else list(d.order)
             ctx.case((tuple(sorted(declared)), tuple(sorted(names)), api, prov, len(clo)), bool(undeclared) or len(clo) >= 2,
                      wit if ctx.evaluations < 2 else None)
@@ -120,7 +126,7 @@ def one(ctx, i, rep=None):
 
 
 def run(ctx):
-    for i in ctx.indices(500 if ctx.tier == 'quick' else 10000, 'random'):
+    for i in ctx.indices(2000 if ctx.tier == 'quick' else 10000, 'random'):
         one(ctx, i)
     ctx.count('metamodels_alive', 4)
 
